@@ -246,6 +246,8 @@ func (pConn *PFCPConn) Shutdown() {
 			logger.PfcpLog.Errorf("failed to release UE IP of session %v: %v", sess.localSEID, err)
 		}
 
+		releaseAllocatedFTEIDs(pConn.upf.fteidGenerator, &sess)
+
 		pConn.RemoveSession(sess)
 	}
 
